@@ -503,6 +503,53 @@ func c13Slots(c *Ctx, r *Report) {
 				default:
 					r.ok("C13-R2-slot-discipline", key, c.pos(st.Pos()), "defmsgs[dm.localMsgType] = dm for the definition just parsed")
 				}
+				// exactness: every successfully parsed definition is stored — the store is control dependent,
+				// on the error-free part of the flow graph, only on tests of the record header's bits, on
+				// comparisons of the parsed definition's message number with a constant (the file_id
+				// premise), nil tests and loops. "Store only if it differs / has fields / ..." would leave
+				// the previous definition of the local type in force.
+				hdrBits := func(v ssa.Value) bool {
+					bo, ok := v.(*ssa.BinOp)
+					if !ok || (bo.Op != token.EQL && bo.Op != token.NEQ) {
+						return false
+					}
+					x, k := bo.X, bo.Y
+					if _, isK := x.(*ssa.Const); isK {
+						x, k = k, x
+					}
+					if _, isK := k.(*ssa.Const); !isK {
+						return false
+					}
+					if and, isAnd := x.(*ssa.BinOp); isAnd && and.Op == token.AND {
+						for _, side := range []ssa.Value{and.X, and.Y} {
+							switch y := side.(type) {
+							case *ssa.Parameter:
+								return basicOf(y.Type()) != nil && basicOf(y.Type()).Kind() == types.Uint8
+							case *ssa.Extract:
+								if call, isC := y.Tuple.(*ssa.Call); isC && call.Common().StaticCallee() != nil && call.Common().StaticCallee().Name() == "readByte" {
+									return true
+								}
+							}
+						}
+						return false
+					}
+					// dm.globalMsgNum ==/!= K for the definition being stored
+					return strings.HasSuffix(stripAddrs(pathOf(x)), ".globalMsgNum")
+				}
+				leaf := func(v ssa.Value) bool {
+					if _, _, isNil := nilTest(v); isNil {
+						return true
+					}
+					if _, isK := v.(*ssa.Const); isK {
+						return true
+					}
+					return hdrBits(v)
+				}
+				if extra := extraControllersBy(c, fn, b, true, leaf); extra != "" {
+					r.fail("C13-R2-slot-discipline", key+"/exact", c.pos(st.Pos()), "whether a parsed definition is stored also depends on "+extra+": when that fails the local type keeps its previous definition and the data records that follow are interpreted with it")
+				} else {
+					r.ok("C13-R2-slot-discipline", key+"/exact", c.pos(st.Pos()), "every successfully parsed definition is stored (controlled by header bits, error exits and loops only)")
+				}
 			}
 		}
 	}
